@@ -29,11 +29,11 @@ Judge(c) ==
       judged == a.verdict # "unjudged"
       inl == Analyse(a.inline, c.e)
       edi == Analyse(a.edit, c.e)
-  IN [inlineEq |-> (c.alt # "inline" \/ ~judged \/ ~a.inlineOk) \/ (inl.verdict = a.verdict /\ (a.verdict # "ok" \/ inl.schema = a.schema)),
+  IN [inlineEq |-> (c.alt # "inline" \/ ~judged \/ ~a.inlineOk) \/ (inl.verdict = a.verdict /\ (a.verdict \notin {"ok", "open"} \/ (inl.schema = a.schema /\ inl.opens = a.opens))),
       inlineFixed |-> (c.alt # "inline" \/ ~a.inlineOk) \/ \A i \in 1..Len(a.inline) : NoUses(a.inline[i]),
-      editEq |-> (c.alt # "edit" \/ ~judged \/ ~a.editOk) \/ (edi.verdict = a.verdict /\ (a.verdict # "ok" \/ NoCondNs(edi.schema) = NoCondNs(a.schema))),
-      pruneIdem |-> a.verdict # "ok" \/ \A i \in 1..Len(c.fl) : Prune(Prune(a.schema, c.fl[i]), c.fl[i]) = Prune(a.schema, c.fl[i]),
-      pruneTopDown |-> a.verdict # "ok" \/ \A i \in 1..Len(c.fl) :
+      editEq |-> (c.alt # "edit" \/ ~judged \/ ~a.editOk) \/ (edi.verdict = a.verdict /\ (a.verdict \notin {"ok", "open"} \/ (NoCondNs(edi.schema) = NoCondNs(a.schema) /\ edi.opens = a.opens))),
+      pruneIdem |-> a.verdict \notin {"ok", "open"} \/ \A i \in 1..Len(c.fl) : Prune(Prune(a.schema, c.fl[i]), c.fl[i]) = Prune(a.schema, c.fl[i]),
+      pruneTopDown |-> a.verdict \notin {"ok", "open"} \/ \A i \in 1..Len(c.fl) :
                           /\ Paths(Prune(a.schema, c.fl[i]), <<>>) = PassingPaths(a.schema, c.fl[i], <<>>)
                           /\ AllPass(Prune(a.schema, c.fl[i]), c.fl[i])
                           /\ SameButChildren(Prune(a.schema, c.fl[i]), a.schema, c.fl[i])]
